@@ -240,6 +240,10 @@ func (c *Ctx) c13Counts(b BK, decodeTarget types.Object) {
 		}
 		n, bad := 0, false
 		for _, p := range run.paths {
+			if ev := countersStartAtZero(p); ev != nil {
+				r.Bad("R13.3", wname, "counter-not-zero", c.Pos(ev.Pos), "the entry counter does not start at 0", shortTrace(p))
+				bad = true
+			}
 			for _, g := range iterations(p) {
 				if !g.inner {
 					continue
@@ -284,6 +288,18 @@ func (c *Ctx) c13Counts(b BK, decodeTarget types.Object) {
 	}
 	n, bad := 0, false
 	for _, p := range run.paths {
+		if ev := countersStartAtZero(p); ev != nil {
+			r.Bad("R13.3", rname, "counter-not-zero", c.Pos(ev.Pos), "the record counter does not start at 0", shortTrace(p))
+			bad = true
+		}
+		// the counter is what is returned
+		if len(p.Ret) == 2 {
+			rv := p.Ret[0]
+			if !(rv.Kind == pw.KHavoc || rv.Kind == pw.KArith || rv.Kind == pw.KConst && rv.Const != nil && rv.Const.ExactString() == "0" || rv.Kind == pw.KZero) {
+				r.Bad("R13.3", rname, "returns-other-count", c.Pos(p.RetPos), "Restore does not return its record counter", shortTrace(p))
+				bad = true
+			}
+		}
 		for _, g := range iterations(p) {
 			if !g.inner {
 				continue
